@@ -60,6 +60,9 @@ pub enum Profile {
     Uniform,
     /// C16: panicking callbacks inside arena methods
     Panics,
+    /// allocator-API sweep: every finger offset x block size/alignment x shrink/grow to every size and
+    /// alignment x deallocate x follow-up allocation (C01, C02, C04, C12)
+    ApiSweep,
 }
 
 pub struct ArenaModel {
@@ -235,6 +238,9 @@ impl ArenaModel {
             }
             if !matches!(s.act, Act::SetLimit { .. }) {
                 last_pub_limit_blip = None;
+            }
+            if world.judge && !world.terminal {
+                world.precursor_probe(super::ops::act_what(&s.act));
             }
             // the harness writes through every reference it holds, after every operation
             for j in 0..world.live.len() {
@@ -592,6 +598,54 @@ impl ArenaModel {
                 a.push(Act::UniSliceFail { al, len: big, fail_at: big - 1 });
                 a.push(Act::Reset { probe: false });
             }
+            Profile::ApiSweep => {
+                let m = M;
+                match depth {
+                    0 => {
+                        for k in 0..=(if t { 64 } else { 32 }) {
+                            a.push(Act::Layout { fallible: true, size: k * m, al: 0 });
+                        }
+                    }
+                    1 => {
+                        for s in 1..=(if t { 33usize } else { 24 }) {
+                            for al in 0..=3u8 {
+                                a.push(Act::Allocate { size: s, al });
+                            }
+                        }
+                        a.push(Act::Allocate { size: 40, al: 4 });
+                        a.push(Act::Allocate { size: 40, al: 5 });
+                        a.push(Act::Allocate { size: 0, al: 3 });
+                    }
+                    2 | 3 => {
+                        if let Some((s0, _a0)) = raw_sz(0) {
+                            a.push(Act::Dealloc { h: 0 });
+                            if depth == 2 || t {
+                                for ns in 0..=s0 {
+                                    for al in 0..=4u8 {
+                                        a.push(Act::Shrink { h: 0, new_size: ns, al });
+                                    }
+                                }
+                                for d in [0usize, 1, 7, 8, 9, 16, 17] {
+                                    for al in 0..=4u8 {
+                                        a.push(Act::Grow { h: 0, new_size: s0 + d, al, zeroed: false });
+                                        a.push(Act::Grow { h: 0, new_size: s0 + d, al, zeroed: true });
+                                    }
+                                }
+                                a.push(Act::Grow { h: 0, new_size: s0 + cap + 1, al: 0, zeroed: true });
+                            }
+                            if nraw > 1 {
+                                a.push(Act::Dealloc { h: 1 });
+                            }
+                        }
+                    }
+                    _ => {
+                        a.push(Act::Allocate { size: 1, al: 0 });
+                        a.push(Act::Allocate { size: 8, al: 3 });
+                        a.push(Act::Layout { fallible: true, size: 3, al: 1 });
+                        a.push(Act::CapProbe);
+                    }
+                }
+            }
             Profile::Panics => {
                 if last {
                     for which in 0..14u8 {
@@ -688,6 +742,12 @@ impl Model for ArenaModel {
 
     fn configs(&self) -> Vec<Cfg> {
         let mut v = Vec::new();
+        if self.profile == Profile::ApiSweep {
+            for &m in &self.min_aligns {
+                v.push(Cfg { m, ctor: Ctor::MinAlignCap, cap: 1, ans: 0, drop_on_thread: false, aux: 0 });
+            }
+            return v;
+        }
         if self.profile == Profile::LayerA {
             for &m in &self.min_aligns {
                 v.push(Cfg { m, ctor: Ctor::MinAlign, cap: 0, ans: 0, drop_on_thread: false, aux: 0 });
